@@ -1093,7 +1093,7 @@ func wktSchema(src protoreflect.MessageDescriptor, ext protoFieldExtensions) (Fi
 	case "j5.types.decimal.v1.Decimal":
 		var rules *schema_j5pb.DecimalField_Rules
 
-		if dateExt := ext.j5.GetDate(); dateExt != nil {
+		if dateExt := ext.j5.GetDecimal(); dateExt != nil {
 			if dateExt.Rules != nil {
 				rules = &schema_j5pb.DecimalField_Rules{
 					Minimum:          dateExt.Rules.Minimum,
